@@ -1843,6 +1843,147 @@ func flt_filterPreds(repo string, _ []string) (string, error) {
 			flt_coqStr(c.name), flt_coqBool(c.hasList), c.operand, flt_coqBool(c.simple), flt_coqStr(c.cond), flt_coqStr(c.listCond), sep)
 	}
 	sb.WriteString("].\n\n")
+	// ---- operand selectors (gorule.go), Object.Is table, nodeIs table
+	gf, err := flt_parseFile(t.fset, repo+"/ruleguard/gorule.go")
+	if err != nil {
+		return "", err
+	}
+	typeSwitchCases := func(fd *ast.FuncDecl, idx int) ([][2]string, error) {
+		if fd == nil || len(fd.Body.List) <= idx {
+			return nil, fmt.Errorf("selector function not found or too short")
+		}
+		ts, ok := fd.Body.List[idx].(*ast.TypeSwitchStmt)
+		if !ok || t.text(ts.Assign) != "n := n.(type)" {
+			return nil, t.errf(fd, "%s: expected switch n := n.(type)", fd.Name.Name)
+		}
+		var out [][2]string
+		for _, c := range ts.Body.List {
+			cc := c.(*ast.CaseClause)
+			key := "default"
+			if cc.List != nil {
+				if len(cc.List) != 1 {
+					return nil, t.errf(cc, "%s: multi-type case", fd.Name.Name)
+				}
+				key = t.text(cc.List[0])
+			}
+			out = append(out, [2]string{key, t.stmtsText(cc.Body)})
+		}
+		return out, nil
+	}
+	emitPairs := func(name, comment string, l [][2]string) {
+		fmt.Fprintf(&sb, "(* %s *)\nDefinition %s : list (string * string) := [", comment, name)
+		for i, p := range l {
+			if i > 0 {
+				sb.WriteString("; ")
+			}
+			fmt.Fprintf(&sb, "(%s, %s)", flt_coqStr(p[0]), flt_coqStr(p[1]))
+		}
+		sb.WriteString("].\n")
+	}
+	se := flt_findMethod(gf, "subExpr")
+	if se == nil || len(se.Body.List) != 2 || t.text(se.Body.List[0]) != "n, _ := params.match.CapturedByName(name)" {
+		return "", fmt.Errorf("filterParams.subExpr has an unknown shape")
+	}
+	sec, err := typeSwitchCases(se, 1)
+	if err != nil {
+		return "", err
+	}
+	emitPairs("gen_subexpr_cases", "gorule.go: filterParams.subExpr, type switch on the captured node", sec)
+	sn := flt_findMethod(gf, "subNode")
+	if sn == nil || t.stmtsText(sn.Body.List) != "n, _ := params.match.CapturedByName(name) ;; return n" {
+		return "", fmt.Errorf("filterParams.subNode has an unknown shape")
+	}
+	tn := flt_findMethod(gf, "typeofNode")
+	if tn == nil || len(tn.Body.List) != 4 || t.text(tn.Body.List[0]) != "var e ast.Expr" {
+		return "", fmt.Errorf("filterParams.typeofNode has an unknown shape")
+	}
+	tnc, err := typeSwitchCases(tn, 1)
+	if err != nil {
+		return "", err
+	}
+	emitPairs("gen_typeof_cases", "gorule.go: filterParams.typeofNode, which nodes have a type expression", tnc)
+	fmt.Fprintf(&sb, "(* ... then: the recorded type, unaliased; the invalid type when there is none *)\nDefinition gen_typeof_tail : string := %s.\n\n",
+		flt_coqStr(strings.Join(strings.Fields(regexp.MustCompile(`//[^\n]*`).ReplaceAllString(t.stmtsText(tn.Body.List[2:]), "")), " ")))
+	// makeObjectIsFilter: switch objectName { case "X": predicate = func(x types.Object) bool { _, ok := x.(*types.X); return ok } }
+	oi := flt_findFunc(ff, "makeObjectIsFilter")
+	if oi == nil || len(oi.Body.List) != 3 {
+		return "", fmt.Errorf("makeObjectIsFilter has an unknown shape")
+	}
+	osw, ok := oi.Body.List[1].(*ast.SwitchStmt)
+	if !ok || t.text(osw.Tag) != "objectName" {
+		return "", t.errf(oi, "makeObjectIsFilter: expected switch objectName")
+	}
+	var objTab [][2]string
+	reObj := regexp.MustCompile(`^predicate = func\(x types\.Object\) bool \{ _, ok := x\.\((\*types\.\w+)\) return ok \}$`)
+	for _, c := range osw.Body.List {
+		cc := c.(*ast.CaseClause)
+		if cc.List == nil || len(cc.List) != 1 || len(cc.Body) != 1 {
+			return "", t.errf(cc, "makeObjectIsFilter: unexpected clause")
+		}
+		name, err := strconv.Unquote(t.text(cc.List[0]))
+		if err != nil {
+			return "", t.errf(cc, "makeObjectIsFilter: key is not a string literal")
+		}
+		m := reObj.FindStringSubmatch(strings.Join(strings.Fields(strings.ReplaceAll(t.text(cc.Body[0]), ";", " ")), " "))
+		if m == nil {
+			return "", t.errf(cc, "makeObjectIsFilter: case body has an unknown shape: %s", t.text(cc.Body[0]))
+		}
+		objTab = append(objTab, [2]string{name, m[1]})
+	}
+	emitPairs("gen_object_is", "filters.go: makeObjectIsFilter, object kind name -> asserted go/types dynamic type", objTab)
+	// the names the loader accepts for Object.Is
+	var objNames []string
+	ast.Inspect(nf.Body, func(n ast.Node) bool {
+		if cc, ok := n.(*ast.CaseClause); ok && len(cc.List) == 1 && t.text(cc.List[0]) == "ir.FilterVarObjectIsOp" {
+			ast.Inspect(cc, func(m ast.Node) bool {
+				if c2, ok := m.(*ast.CaseClause); ok && c2 != cc && len(c2.List) > 1 {
+					for _, k := range c2.List {
+						if s, err := strconv.Unquote(t.text(k)); err == nil {
+							objNames = append(objNames, s)
+						}
+					}
+				}
+				return true
+			})
+		}
+		return true
+	})
+	fmt.Fprintf(&sb, "Definition gen_object_is_accepted : list string := [")
+	for i, n := range objNames {
+		if i > 0 {
+			sb.WriteString("; ")
+		}
+		sb.WriteString(flt_coqStr(n))
+	}
+	sb.WriteString("].\n")
+	// nodeIs: switch tag { case nodetag.Expr: _, matched = n.(ast.Expr) ... default: matched = (tag == nodetag.FromNode(n)) }
+	ni := flt_findFunc(ff, "nodeIs")
+	if ni == nil || len(ni.Body.List) != 3 || t.text(ni.Body.List[0]) != "var matched bool" || t.text(ni.Body.List[2]) != "return matched" {
+		return "", fmt.Errorf("nodeIs has an unknown shape")
+	}
+	nsw, ok := ni.Body.List[1].(*ast.SwitchStmt)
+	if !ok || t.text(nsw.Tag) != "tag" {
+		return "", t.errf(ni, "nodeIs: expected switch tag")
+	}
+	var nodeTab [][2]string
+	for _, c := range nsw.Body.List {
+		cc := c.(*ast.CaseClause)
+		key := "default"
+		if cc.List != nil {
+			if len(cc.List) != 1 {
+				return "", t.errf(cc, "nodeIs: multi-key case")
+			}
+			k, ok := flt_selName(cc.List[0], "nodetag")
+			if !ok {
+				return "", t.errf(cc, "nodeIs: key is not a nodetag constant")
+			}
+			key = k
+		}
+		nodeTab = append(nodeTab, [2]string{key, t.stmtsText(cc.Body)})
+	}
+	emitPairs("gen_node_is", "filters.go: nodeIs, tag -> test", nodeTab)
+	sb.WriteString("\n")
+
 	paths, err := t.dslPaths(repo + "/dsl/dsl.go")
 	if err != nil {
 		return "", err
